@@ -95,7 +95,13 @@ func c13Hash(b []byte) uint64 {
 const c13RefsMax = 400
 
 // c13ExecOn runs the script to completion on v (price getter and gas limit already set).
-func c13ExecOn(v *vm.VM, script []byte) c13Result {
+func c13ExecOn(v *vm.VM, script []byte) c13Result { return c13ExecBounded(v, script, 0) }
+
+const c13StepBoundMsg = "verif: step bound exceeded"
+
+// c13ExecBounded: the same with a bound on the number of instructions (0 = none): an execution that does not stop is
+// reported (Panic = c13StepBoundMsg) instead of hanging the check
+func c13ExecBounded(v *vm.VM, script []byte, bound int) c13Result {
 	var res c13Result
 	h := fnv.New64a()
 	v.SetOnExecHook(func(_ util.Uint160, off int, op opcode.Opcode) {
@@ -109,6 +115,9 @@ func c13ExecOn(v *vm.VM, script []byte) c13Result {
 			res.Refs = append(res.Refs, v.VerifRefs())
 		}
 		res.Steps++
+		if bound > 0 && res.Steps > bound {
+			panic(c13StepBoundMsg)
+		}
 	})
 	var err error
 	res.Panic = catch(func() {
